@@ -53,6 +53,11 @@ pub fn run(ctx: &mut Ctx) {
     ctx.mark_exhaustive("type-by-length", "64 type values x byte lengths 0..=60 plus specified and long lengths x {zeros, ones, random contents}");
     let n = ctx.tier.pick(100_000, 600_000);
     ctx.run_proptest("random-fields", &STD, n, payload_inputs(SUPPORTED.to_vec(), LenMode::Standard, Prop::C09, 6, 0.10), check);
+    // "by the first six bits alone": the contents must not matter, least of all the values other properties
+    // single out (sentinels, enumerated codes, list lengths) - the same generator with their emphasis
+    for (name, focus) in [("random-fields-c04-emphasis", Prop::C04), ("random-fields-c11-emphasis", Prop::C11), ("random-fields-c12-emphasis", Prop::C12), ("random-fields-c14-emphasis", Prop::C14)] {
+        ctx.run_proptest(name, &STD, n / 4, payload_inputs(SUPPORTED.to_vec(), LenMode::Standard, focus, 6, 0.05), check);
+    }
     ctx.run_proptest("random-any-length", &STD, n / 2, payload_inputs((0..64).collect(), LenMode::Any, Prop::C09, 3, 0.05), check);
     // the same generated payloads, a tenth of them through the sentence path (fragments included), on the
     // alloc and no-allocator builds
